@@ -27,6 +27,10 @@ BUILT = {
    "bounded exhaustive enumeration of namespace declaration layouts x nodes x prefixes x namespaces, compared with a nearest-declaration-wins resolver",
    "Every layout of 1-3 elements (540 declaration/name/attribute specs per element; reduced menu for the third element) attached and unattached: namespaces_in_scope, namespace_for_prefix, prefix_for_namespace, unresolved_namespaces, inherited_prefixes, full_name, name_ref, node_name_ref at every node against the NsScope model.",
    "Hash-ordered results compared as sets. Bounded alphabets: prefixes {'',p,q,xml,r}, namespaces {X,Y,XML,Z}."),
+ "C10": ("model_checking", "xotmc/E-TREE+E-BFS+XmlRead",
+   "exhaustive enumeration of namespace layouts in four placements plus explicit-state BFS over add/move/clone/repair histories on the real code; names of the output resolved by an independent XML reader",
+   "Every layout of 1-3 elements without any serialisability filter (document, unattached element, in-place subtree, fragment), single detached nodes and element-less fragments: to_string is Err or text whose names, resolved by XmlRead, are the tree's expanded names; after create_missing_prefixes the tree serialises, reparses equal modulo declarations, nothing but declarations changed and none was overridden. Histories up to depth 3/4 alternate adding / moving / cloning nodes in four namespaces with create_missing_prefixes.",
+   "Trusts XmlRead (400 lines, self-tested). Trees whose own declarations contradict their element names (no-namespace element declaring a default namespace) cannot be written in XML and are outside the repair clause."),
  "C13": ("exploration", "xotmc/E-TREE pairs",
    "exhaustive enumeration of all ordered pairs (and triples of a subset) of small subtrees covering every single-feature difference; predicates compared with independently computed canonical forms",
    "All ordered pairs of ~1000 (quick) / ~5000 (thorough) subtrees x deep_equal, deep_equal_children, deep_equal_xpath, advanced_deep_equal (4 filters x 3 comparisons), shallow_equal, shallow_equal_ignore_attributes (all 40 ignore lists incl. repeats), string_value; transitivity on all triples of a subset.",
